@@ -298,6 +298,28 @@ func (env *Env) object(obj types.Object) Value {
 	return Value{}
 }
 
+// importedPkgFor: like importedPkg, but when several imports share the name
+// (an alias hides one of them) picks the one that declares member.
+func (env *Env) importedPkgFor(name, member string) *types.Package {
+	if env.pkg != nil {
+		var first *types.Package
+		for _, p := range env.pkg.Imports() {
+			if p.Name() == name {
+				if first == nil {
+					first = p
+				}
+				if p.Scope().Lookup(member) != nil {
+					return p
+				}
+			}
+		}
+		if first != nil {
+			return first
+		}
+	}
+	return env.importedPkg(name)
+}
+
 func (env *Env) importedPkg(name string) *types.Package {
 	if env.pkg != nil {
 		for _, p := range env.pkg.Imports() {
@@ -323,7 +345,7 @@ func (env *Env) importedPkg(name string) *types.Package {
 func (env *Env) selector(t *ast.SelectorExpr) Value {
 	if id, ok := t.X.(*ast.Ident); ok {
 		if _, isVar := env.vars[id.Name]; !isVar {
-			if p := env.importedPkg(id.Name); p != nil {
+			if p := env.importedPkgFor(id.Name, t.Sel.Name); p != nil {
 				obj := p.Scope().Lookup(t.Sel.Name)
 				if obj == nil {
 					env.fail("%s.%s not found", id.Name, t.Sel.Name)
@@ -686,7 +708,7 @@ func (env *Env) resolveType(e ast.Expr) types.Type {
 		}
 	case *ast.SelectorExpr:
 		if id, ok := t.X.(*ast.Ident); ok {
-			if p := env.importedPkg(id.Name); p != nil {
+			if p := env.importedPkgFor(id.Name, t.Sel.Name); p != nil {
 				if tn, ok := p.Scope().Lookup(t.Sel.Name).(*types.TypeName); ok {
 					return tn.Type()
 				}
